@@ -8,6 +8,7 @@ from .util import models, GAMMAS
 def make_model(model_name, cfg, Ms=None):
     Ms = Ms or models()
     c = dict(cfg)
+    c.pop("_defaults", None)
     g = c.pop("gamma", "default")
     if GAMMAS[g] is not None:
         c["gamma"] = GAMMAS[g]
